@@ -169,11 +169,18 @@ def gen(cls, idx, rng, tier):
                   for _ in range(rng.randint(1, 3))]
         t["others"] = [dict(chip=(i, rng.randrange(4)), **o)
                        for i, o in enumerate(others)]
-        kind = rng.choice(["int", "dict", "none"])
+        kind = rng.choice(["int", "dict", "none", "defaultdict"])
         if kind == "int":
             tl = targets(rng, n)
         elif kind == "none":
             tl = None
+        elif kind == "defaultdict":
+            # a dict (subclass) that lists only some chips and answers for
+            # the others through its default factory
+            tl = {"default": targets(rng, n)}
+            for o in t["others"]:
+                if rng.random() < .5:
+                    tl[o["chip"]] = targets(rng, len(o["entries"]))
         else:
             tl = {(9, 9): targets(rng, n)}
             for o in t["others"]:
@@ -343,9 +350,18 @@ def run(case, ctx):
             descr[o["chip"]] = o
         arg = {c: list(tb) for c, tb in tables.items()}
         tl = dict(target) if isinstance(target, dict) else target
+        if isinstance(tl, dict) and "default" in tl:
+            import collections
+            dflt = tl.pop("default")
+            listed = dict(tl)
+            tl = collections.defaultdict(lambda: dflt, listed)
+            ctx.hit("targets_from_default_factory")
 
-        def tgt(chip):
-            return tl[chip] if isinstance(tl, dict) else tl
+            def tgt(chip):
+                return listed.get(chip, dflt)
+        else:
+            def tgt(chip):
+                return tl[chip] if isinstance(tl, dict) else tl
         what = "minimise_tables(targets=%r) on %d chips" % (target,
                                                             len(tables))
         mnames = case.get("methods")
